@@ -1062,9 +1062,10 @@ def trigger(case, viol):
                 if writes_in_second >= 2:
                     t.append('same-second-rewrite')
                     break
-    if 'set_bad' in kinds and not (t and viol.get('class') == 'sibling-changed'):
-        # (a sparse-observation run notices a sibling's state at whatever step comes next: an un-encodable store
-        # on ANOTHER archive is then only the step at which it was noticed, not a trigger)
+    if 'set_bad' in kinds and not (t and label != 'file-src'):
+        # (outside source-text file archives, where refusing a value is itself the known finding, an un-encodable
+        # store that merely occurs in a case which already needs a key-mapping trigger is not a second trigger: the
+        # shrinker cannot always remove it from sparse-observation runs. A case WITHOUT another trigger keeps it)
         t.append('unencodable')
     return '+'.join(t) or 'plain'
 
